@@ -88,6 +88,12 @@ TEnd == /\ IsEv("end")
         /\ (closed \/ \A m \in next..Len(sent) : Quiet(m))
         /\ UNCHANGED <<sent, next, closed, bk, fka>> /\ Pin
 
-TNext == TReset \/ TRecv \/ TOut \/ TDisc \/ TEnd
+(* probe in its own process: a plugin changes a signed chat message while forceKeyAuthentication
+   is on; the chat queue must survive it (idle again) and the player is disconnected.
+   {"ev":"begin"} {"ev":"returned","idle","disc"} -- a dead process leaves {"ev":"crashed"}. *)
+TBegin == IsEv("begin") /\ UNCHANGED <<sent, next, closed, bk, fka>> /\ Pin
+TReturned == IsEv("returned") /\ Rec.idle /\ Rec.disc /\ UNCHANGED <<sent, next, closed, bk, fka>> /\ Pin
+
+TNext == TReset \/ TRecv \/ TOut \/ TDisc \/ TEnd \/ TBegin \/ TReturned
 TSpec == TInit /\ [][TNext]_tv
 =============================================================================
